@@ -13,6 +13,7 @@ import cmath
 
 from vlib.common import *
 from vlib import pmcases
+from props import kinematics
 
 TOL = 1e-6
 
@@ -319,12 +320,13 @@ def run(ctx):
     binp = build_harness(ctx)
     pmcases.tag_inputs(ctx)
     if getattr(ctx, "replay", None):
-        return pmcases.replay(ctx, binp, oracle, timeout=1500)
-    msgs, spans = regen(ctx, ["pm_integrand"])
+        r = kinematics.try_replay(ctx, binp)      # a record written by the kinematics stage (group indices of the counts correction)
+        return r if r is not None else pmcases.replay(ctx, binp, oracle, timeout=1500)
+    msgs, spans = regen(ctx, ["pm_integrand", "kinematics"])
     ctx.cov["translated_spans"] = {k: v for k, v in spans.items() if any(t in v["file"] for t in
                                    ("coincidences", "normalization", "phasematch/mod", "joint_spectrum", "spdc_obj", "pm_type", "counts"))}
     for m in msgs:
-        ctx.proof_failures.append(("Gen/PMIntegrand.v", "translator", m))
+        ctx.proof_failures.append(("Gen/Kinematics.v" if m.rstrip().endswith("[generator kinematics]") else "Gen/PMIntegrand.v", "translator", m))
     proved = (not msgs) and prove(ctx, "C06", extra_targets=["Proofs/PMCaseTac.vo"])
     # the finding's witness lives outside the property's obligations
     okf, _, _ = coq_build(ctx, ["Findings/C06_counts_correction.vo"]) if not msgs else (False, None, None)
@@ -350,6 +352,8 @@ def run(ctx):
         correspondence(ctx, pts, 8 if quick else 32, 2 if quick else 3)
     else:
         ctx.note("correspondence cases skipped: generated model did not compile")
+    # the group indices entering get_counts_correction: generated Beam kinematics (Gen/Kinematics.v) against the implementation
+    kinematics.run_stage(ctx, binp, n=16 if quick else 150)
     if (not proved or ctx.case_failures) and not any(v["found_input"] and not v["sig"].get("ratio_is_group_index_ratio") for v in ctx.violations):
         ctx.log("S5 deep search for a failing input (proof obligations / correspondence are broken)")
         for k in range(2 if quick else 6):
@@ -374,7 +378,10 @@ def run(ctx):
         "idler singles spectrum = exchanged signal singles spectrum": "definitional (the code computes it through the exchanged setup; shape pinned by the generator, transposition checked on Rust outputs)",
         "cell area dw2 = dws * dwi from the generated division widths of the two axes; transposed grid": "proved (Steps2D::division_widths pinned; widths recomputed from the grid end points in S5)",
         "idler singles rate = exchanged signal singles rate": "proved_partial (same correction-factor defect)",
-        "exchange tie (Rust scalars of the exchanged setup = pm_swap)": "validated_only (bitwise, every run)"}
+        "exchange tie (Rust scalars of the exchanged setup = pm_swap)": "validated_only (bitwise, every run)",
+        "counts correction of the exchanged setup on the generated Beam::group_index (ratio ng_i / ng_s with ng = n / (1 + (lambda/n) dn/dlambda))":
+            "proved (Compose_kinematics_links over Gen/Kinematics.v); generated kinematics = implementation by interval goals (1e-11), "
+            "implementation = the property's formulas on its own index samples (S5, 1e-9)"}
     return finish(ctx, assumptions=[
         "the generated model is tied to Rust by interval-checked pointwise correspondence (integrand 1e-9, norm/envelope 1e-11) and by the "
         "bitwise exchange tie; binary64 rounding is measured, not proved",
